@@ -62,6 +62,7 @@ type lockHavoc struct {
 	old      smt.Term
 	fresh    smt.Term
 	typ      types.Type
+	ghostKey string
 }
 
 type loopFrame struct {
